@@ -7,12 +7,22 @@
 //                                is set, rows in increasing column order
 //   direct_cmk_pats rev n k code_1 .. code_k   the same for k patterns in one request (result lines concatenated): keeps the
 //                                exhaustive 5x5 enumeration of the thorough tier affordable
-// Result line: `ok n p_0 .. p_{n-1}`, or `oob` (n = 0: the code writes perm[0] and reads degree[0] of empty vectors; the real
-// code is run in a forked child and `oob` is printed iff the sanitizers kill it), or `precondition` (amgcl's exception).
+//   direct_sky_empty kind        kind 0: solver::skyline_lu<double> constructed from a 0 x 0 matrix + operator() on empty vectors,
+//                                kind 1: amg<builtin<double>, smoothed_aggregation, spai0> on a 0 x 0 system (its own coarsest level);
+//                                forked child, result `ok` / `crash`.  NOT generated yet: skyline_lu::factorize() still reads D[0]
+//                                of an empty vector (notes/repro/skyline_empty.cpp, repo_patches/fix_skyline_empty.patch); the op
+//                                is there for replay / corpus use once the library survives it.
+// Result line: `ok n p_0 .. p_{n-1}`; for n = 0 (`if (n == 0) return;`, fix of finding F41) `ok 0`: the real code is run in a
+// forked child on an empty `perm` and on a longer one (which must be left untouched); `crash` + oracle failure if the child
+// dies; `precondition` (amgcl's exception) is an oracle failure as well.
 // Implementation-side oracles (independent of the model): the result is a permutation of 0..n-1; it does not depend on the
 // incoming content of `perm`; perm[0] = 0 (the initial node).
 #include "direct_common.hpp"
 #include <amgcl/reorder/cuthill_mckee.hpp>
+#include <amgcl/solver/skyline_lu.hpp>
+#include <amgcl/amg.hpp>
+#include <amgcl/coarsening/smoothed_aggregation.hpp>
+#include <amgcl/relaxation/spai0.hpp>
 #include <unistd.h>
 #include <sys/wait.h>
 #include <fcntl.h>
@@ -24,18 +34,35 @@ static std::vector<long> run_cmk(long rev, const Mat &A, long fill) {
     return perm;
 }
 
-// n = 0: run the real code in a child; report whether it survives
-static bool survives_empty(long rev, const Mat &A) {
+// run `f` in a forked child; true iff it returns 0 (sanitizer reports, signals and exceptions are all "does not survive")
+template <class F> static bool survives(F f) {
     fflush(0);
     pid_t pid = fork();
     if (pid < 0) throw std::runtime_error("fork");
     if (pid == 0) {
         int fd = open("/dev/null", O_WRONLY); if (fd >= 0) { dup2(fd, 2); dup2(fd, 1); }
-        try { run_cmk(rev, A, -1); } catch (...) { _exit(3); }
-        _exit(0);
+        int rc = 3; try { rc = f(); } catch (...) { rc = 4; }
+        _exit(rc);
     }
     int st = 0; waitpid(pid, &st, 0);
     return WIFEXITED(st) && WEXITSTATUS(st) == 0;
+}
+// n = 0: the code returns at once and leaves `perm` (empty, or longer than it should be) untouched
+static bool survives_empty(long rev, const Mat &A) {
+    return survives([&]() -> int {
+        if (!run_cmk(rev, A, -1).empty()) return 1;
+        auto Ac = A.crs(); std::vector<long> longer(3, 7);
+        if (rev) amgcl::reorder::cuthill_mckee<true>::get(*Ac, longer); else amgcl::reorder::cuthill_mckee<false>::get(*Ac, longer);
+        for (long v : longer) if (v != 7) return 1;
+        return 0; });
+}
+static bool survives_sky_empty(long kind) {
+    return survives([&]() -> int {
+        std::vector<ptrdiff_t> ptr(1, 0), col; std::vector<double> val;
+        amgcl::backend::crs<double, ptrdiff_t, ptrdiff_t> A(0, 0, ptr, col, val);
+        if (kind == 0) { amgcl::solver::skyline_lu<double> S(A); std::vector<double> f, x; S(f, x); }
+        else { amgcl::amg<amgcl::backend::builtin<double>, amgcl::coarsening::smoothed_aggregation, amgcl::relaxation::spai0> P(A); }
+        return 0; });
 }
 
 static Mat pat_matrix(long n, unsigned long long code) {
@@ -47,7 +74,7 @@ static Mat pat_matrix(long n, unsigned long long code) {
 static Result run(long rev, const Mat &A) {
     Result r; long n = A.n;
     r.tag(rev ? "rcm" : "cm"); r.nontrivial = n >= 2;
-    if (n == 0) { r.tag("n0"); r.out = survives_empty(rev, A) ? "ok 0" : "oob"; return r; }
+    if (n == 0) { r.tag("n0"); if (survives_empty(rev, A)) r.out = "ok 0"; else { r.out = "crash"; r.fail("cuthill_mckee::get on an empty matrix crashes or touches perm"); } return r; }
     std::vector<long> p;
     try { p = run_cmk(rev, A, -1); } catch (const std::exception &) { r.out = "precondition"; r.fail("cuthill_mckee::get threw on a square well-formed pattern"); return r; }
     if (!is_perm(p, n)) r.fail("cuthill_mckee::get did not return a permutation of 0..n-1");
@@ -96,6 +123,12 @@ static Result execute(const Toks &t) {
         for (auto code : codes) { Result one = run(rev, pat_matrix(n, code)); l << one.out; if (!one.ok) r.fail(one.why + " (pattern " + std::to_string(code) + ")");
             r.nontrivial = r.nontrivial || one.nontrivial; for (auto &t : one.tags) tags.insert(t); }
         for (auto &t : tags) r.tag(t); r.tag("pattern_enum"); r.tag("pattern_batch"); r.out = l.get(); return r;
+    }
+    else if (op == "direct_sky_empty") {
+        long kind = c.nat(); c.expect_end(); if (kind < 0 || kind > 1) throw bad_input("kind");
+        Result r; r.tag(kind ? "amg_empty" : "sky_empty");
+        if (survives_sky_empty(kind)) r.out = "ok"; else { r.out = "crash"; r.fail(kind ? "amg on a 0 x 0 system crashes" : "skyline_lu on a 0 x 0 matrix crashes"); }
+        return r;
     }
     Result r; r.out = "bad-op"; return r;
 }
@@ -207,6 +240,7 @@ static void generate(Rng &rng, const Opts &o, std::vector<std::string> &lines) {
     lines.push_back("direct_cmk_pats 0 2 2 3 16");                   // second code has a bit outside the 2x2 pattern
     lines.push_back("direct_cmk_pats 1 2 3 3 5");                    // fewer codes than announced
     lines.push_back("direct_cmk_pats 0 2 0");                        // empty batch
+    lines.push_back("direct_sky_empty 2");                           // kind out of range
 }
 
 VH_MAIN(generate, execute)
